@@ -896,6 +896,19 @@ static int32_t tls13ParseHandshakeMessage(ssl_t *ssl,
     {
         /* Unable to read the entire HS message.
            Start fragmented read. */
+#  ifdef SSL_DEFAULT_IN_HS_SIZE
+        if (hsMsgLen > SSL_DEFAULT_IN_HS_SIZE)
+#  else
+        if (hsMsgLen > 65536) /* Built-in default, as for TLS 1.2 and below */
+#  endif
+        {
+            /* Do not allocate whatever the 24-bit length field announces:
+               same limit as the TLS 1.2 and below decoder. */
+            psTraceErrr("Maximum handshake message length exceeded.\n");
+            ssl->err = SSL_ALERT_DECODE_ERROR;
+            rc = MATRIXSSL_ERROR;
+            goto exit;
+        }
         pb.buf.start -= TLS_HS_HDR_LEN;
         rc = tls13FragMessageReadInit(ssl, &pb, hsMsgLen);
         if (rc < 0)
